@@ -96,11 +96,10 @@ DELETE FROM safe_update
 # A product node can be reached through more than one flagged ancestor at once
 # (e.g. Step.detach()/reattach() flags a whole subtree
 # via RECURSIVE_CHECK_WITH_PRODUCTS in step.py),
-# so duplicate rows for the same node id are possible
-# and are resolved with MIN(safe)/MIN(safe_nh):
-# the value derived through a longer (more ancestor-inclusive) chain
-# is always <= the value from a shorter chain,
-# so MIN always recovers the correct, fully-chained answer rather than an arbitrary one.
+# so only the topmost flagged step of such a chain is a seed (see the seed's WHERE clause):
+# seeding a step from the stored _safe of a creator that is itself being recomputed
+# would mix a stale value into the result.
+# Every node then has one row; MIN(safe)/MIN(safe_nh) only makes that explicit for GROUP BY.
 #
 # `trace` carries four values per node:
 # `safe`/`safe_nh` are that node's own new _safe/_safe_ignoring_hold (what gets written out)
@@ -159,7 +158,10 @@ WITH RECURSIVE trace(i, safe, chain, safe_nh, chain_nh) AS (
     FROM step AS s
     JOIN node AS cnode ON cnode.i = s.node
     LEFT JOIN step AS creator_step ON creator_step.node = cnode.creator
-    WHERE s._check_safe
+    -- A flagged step whose creator is flagged too is not a seed:
+    -- the stored _safe of that creator is exactly what is being recomputed,
+    -- and the step is reached from the creator's own seed through the recursion below.
+    WHERE s._check_safe AND NOT COALESCE(creator_step._check_safe, 0)
 
     UNION ALL
 
